@@ -221,8 +221,8 @@ func combineTypes(types []*Type) *Type {
 	combinedT := types[0]
 	for _, t := range types[1:] {
 		if combinedT.Equals(t) {
-			if t.Fixed {
-				combinedT = t // a variable among the elements: the type can no longer be converted
+			if containsFixed(t) {
+				combinedT = t // a variable among the elements, at any depth: the type can no longer be converted
 			}
 			continue
 		}
